@@ -406,6 +406,103 @@ Section Leaves.
   Qed.
 End Leaves.
 
+(* ---------- combinator TREES (ValueAnd / ValueOr nested to any depth) against their ideal ---------- *)
+Definition comp_ok_t (t : ctree vcfg) (a b : cval) : Prop :=
+  if ty_differs a b
+  then ideal_t t a b = None /\ (answers (model_t t) a b = true -> says (model_t t) a b = false)
+  else leaf_of (model_t t) a b = ideal_t t a b.
+
+Section GenLeaves.
+  Variable A : Type.
+  Variable mf : A -> vcmp.
+  Variable idf : A -> cval -> cval -> option bool.
+
+  Lemma and_leaf_gen (ts : list A) a b :
+    (forall t, In t ts -> leaf_of (mf t) a b = idf t a b) ->
+    leaf_of (value_and (map mf ts)) a b = leaf_and (map idf ts) a b.
+  Proof.
+    rewrite leaf_of_value_and. induction ts as [|v r IH]; intros H; [reflexivity|].
+    cbn [map existsb forallb leaf_and].
+    rewrite <- (H v (or_introl eq_refl)), <- IH by (intros w Hw; apply H; right; exact Hw).
+    rewrite leaf_of_unfold. destruct (answers (mf v) a b); cbn [orb negb andb].
+    - destruct (existsb (fun e => answers e a b) (map mf r)) eqn:E; [reflexivity|].
+      rewrite (none_answers_forallb _ _ _ E), andb_true_r. reflexivity.
+    - reflexivity.
+  Qed.
+
+  Lemma or_leaf_gen (ts : list A) a b :
+    (forall t, In t ts -> leaf_of (mf t) a b = idf t a b) ->
+    leaf_of (value_or (map mf ts)) a b = leaf_or (map idf ts) a b.
+  Proof.
+    rewrite leaf_of_value_or. induction ts as [|v r IH]; intros H; [reflexivity|].
+    cbn [map existsb leaf_or].
+    rewrite <- (H v (or_introl eq_refl)), <- IH by (intros w Hw; apply H; right; exact Hw).
+    rewrite leaf_of_unfold. destruct (answers (mf v) a b); cbn [orb andb].
+    - destruct (existsb (fun e => answers e a b) (map mf r)) eqn:E; [reflexivity|].
+      rewrite (none_answers_existsb _ _ _ E), orb_false_r. reflexivity.
+    - reflexivity.
+  Qed.
+
+  Lemma all_none_and_gen (ts : list A) a b :
+    (forall t, In t ts -> idf t a b = None) -> leaf_and (map idf ts) a b = None.
+  Proof.
+    induction ts as [|v r IH]; intros H; [reflexivity|]. cbn [map leaf_and].
+    rewrite (H v (or_introl eq_refl)). apply IH. intros w Hw. apply H. right. exact Hw.
+  Qed.
+  Lemma all_none_or_gen (ts : list A) a b :
+    (forall t, In t ts -> idf t a b = None) -> leaf_or (map idf ts) a b = None.
+  Proof.
+    induction ts as [|v r IH]; intros H; [reflexivity|]. cbn [map leaf_or].
+    rewrite (H v (or_introl eq_refl)). apply IH. intros w Hw. apply H. right. exact Hw.
+  Qed.
+End GenLeaves.
+
+Lemma leaves_of_child (c : ctree vcfg) ts v : In c ts -> In v (tree_leaves c) -> In v (flat_map tree_leaves ts).
+Proof. intros Hc Hv. apply in_flat_map. exists c. auto. Qed.
+
+(* every leaf is its ideal on (a, b) => the whole tree is its ideal on (a, b) *)
+Theorem tree_comp_ok : forall t a b, (forall v, In v (tree_leaves t) -> comp_ok v a b) -> comp_ok_t t a b.
+Proof.
+  intros t a b. induction t as [l|ts IH|ts IH] using ctree_ind'; intros H.
+  - exact (H l (or_introl eq_refl)).
+  - assert (C : forall c, In c ts -> comp_ok_t c a b).
+    { intros c Hc. rewrite Forall_forall in IH. apply (IH c Hc). intros v Hv. apply H. cbn [tree_leaves].
+      apply (leaves_of_child c); assumption. }
+    clear IH H. unfold comp_ok_t in *. revert C. destruct (ty_differs a b); intros C.
+    + split.
+      * cbn [ideal_t]. apply all_none_and_gen. intros c Hc. apply (C c Hc).
+      * intros Ans. unfold model_t in *. cbn [tree_cmp] in *. unfold says. unfold answers in Ans.
+        rewrite value_and_is_conj in *. cbn [fst snd] in *.
+        apply answering_say_false_and; [|exact Ans].
+        intros m Hm. apply in_map_iff in Hm. destruct Hm as (c & <- & Hc). apply (C c Hc).
+    + unfold model_t. cbn [tree_cmp ideal_t]. apply (and_leaf_gen _ (tree_cmp model_v) ideal_t). exact C.
+  - assert (C : forall c, In c ts -> comp_ok_t c a b).
+    { intros c Hc. rewrite Forall_forall in IH. apply (IH c Hc). intros v Hv. apply H. cbn [tree_leaves].
+      apply (leaves_of_child c); assumption. }
+    clear IH H. unfold comp_ok_t in *. revert C. destruct (ty_differs a b); intros C.
+    + split.
+      * cbn [ideal_t]. apply all_none_or_gen. intros c Hc. apply (C c Hc).
+      * intros _. unfold model_t in *. cbn [tree_cmp] in *. unfold says.
+        rewrite value_or_is_disj. cbn [fst].
+        apply answering_say_false_or.
+        intros m Hm. apply in_map_iff in Hm. destruct Hm as (c & <- & Hc). apply (C c Hc).
+    + unfold model_t. cbn [tree_cmp ideal_t]. apply (or_leaf_gen _ (tree_cmp model_v) ideal_t). exact C.
+Qed.
+
+Lemma tree_sim t a b :
+  forallb vcfg_guard (tree_leaves t) = true -> existsb is_durp (tree_leaves t) = false ->
+  lguard (cfg_nd (tree_leaves t)) a = true -> lguard (cfg_nd (tree_leaves t)) b = true ->
+  leaf_sim (leaf_of (value_and [model_t t])) (ideal_t t) a b.
+Proof.
+  intros G N Ga Gb. unfold leaf_sim. rewrite leaf_of_value_and_single.
+  pose proof (tree_comp_ok t a b (fun v Hi => comp_ok_in (tree_leaves t) G N v a b Hi Ga Gb)) as C.
+  unfold comp_ok_t in C. revert C. destruct (ty_differs a b); intros C.
+  - destruct C as [C1 C2]. rewrite C1, leaf_of_unfold.
+    destruct (answers (model_t t) a b) eqn:E; [|left; reflexivity].
+    right. rewrite (C2 eq_refl). auto.
+  - left. exact C.
+Qed.
+
 (* ---------- the theorem over message trees ---------- *)
 (* the hypotheses on a top-level message: what the judge's guard says, and no saturating Duration
    where a DurationValueWithin is configured *)
@@ -443,4 +540,27 @@ Proof.
     + apply top_parts; assumption.
 Qed.
 
+(* the same for cmp.Equal(t), t any combinator tree: the verdict on whole messages is the reference
+   equality whose leaf is the tree's ideal (the ideal tolerances combined over the applicable members) *)
+Theorem tree_model_is_ideal : forall t x y,
+  ecfg_guard (EAnd (tree_leaves t)) = true -> has_durp (EAnd (tree_leaves t)) = false ->
+  tree_ok (EAnd (tree_leaves t)) x = true -> tree_ok (EAnd (tree_leaves t)) y = true ->
+  model_tree t x y = ideal_tree t x y.
+Proof.
+  intros t x y Ge Nd Tx Ty. unfold tree_ok in Tx, Ty.
+  apply andb_true_iff in Tx. destruct Tx as [Gx Sx]. apply andb_true_iff in Ty. destruct Ty as [Gy Sy].
+  assert (Wx : opt_wf x = true) by (destruct x as [a|]; [|reflexivity]; cbn in Gx |- *; apply andb_true_iff in Gx; tauto).
+  assert (Wy : opt_wf y = true) by (destruct y as [a|]; [|reflexivity]; cbn in Gy |- *; apply andb_true_iff in Gy; tauto).
+  unfold ecfg_guard, has_durp in Ge, Nd. cbn [cfg_vs] in *.
+  unfold model_tree, ideal_tree. rewrite cmp_equal_is_spec by assumption.
+  destruct x as [a|], y as [b|]; try reflexivity; cbn [spec_top]; f_equal;
+    cbn [opt_guard opt_sat] in Gx, Gy, Sx, Sy;
+    apply andb_true_iff in Gx; destruct Gx as [Wa Va]; apply andb_true_iff in Gy; destruct Gy as [Wb Vb].
+  apply (spec_congr ignored _ _ (lguard (cfg_nd (tree_leaves t))) (lguard_CM _) (lguard_CL _) (lguard_CMap _)).
+  - intros p q Gp Gq. apply tree_sim; assumption.
+  - apply top_parts; assumption.
+  - apply top_parts; assumption.
+Qed.
+
 Print Assumptions model_is_ideal.
+Print Assumptions tree_model_is_ideal.
